@@ -67,6 +67,8 @@ class Module:
                 g[st.name] = ("class", st)
             elif isinstance(st, ast.Assign) and len(st.targets) == 1 and isinstance(st.targets[0], ast.Name):
                 g[st.targets[0].id] = ("assign", st.value)
+            elif isinstance(st, ast.AnnAssign) and isinstance(st.target, ast.Name) and st.value is not None:
+                g[st.target.id] = ("assign", st.value)
             elif isinstance(st, ast.Try):  # try: import x as y / except ImportError
                 for s2 in st.body:
                     if isinstance(s2, ast.Import):
